@@ -146,8 +146,6 @@ theorem makedirs_touched (fs fs' : FS) (p : P) (Q : P → Prop)
           · exact ih fs0 fs1 (fun r hr => hp r (List.mem_cons_of_mem _ hr)) hq0 h
           · rename_i hne
             split at h
-            · exact ih fs0 fs1 (fun r hr => hp r (List.mem_cons_of_mem _ hr)) hq0 h
-            · cases h
             · rename_i hk
               have hQ := hq0 q (hp q (List.mem_cons_self ..)) hk hne
               have step : Touched fs0 (fs0 ++ [(q, .dir)]) Q := by
@@ -163,14 +161,18 @@ theorem makedirs_touched (fs fs' : FS) (p : P) (Q : P → Prop)
               | some k =>
                 exfalso
                 exact kind?_none_of_mem hn k (List.mem_append_left _ (kind?_some_mem hr'))
+            · split at h
+              · exact ih fs0 fs1 (fun r hr => hp r (List.mem_cons_of_mem _ hr)) hq0 h
+              · cases h
       exact this _ _ _ (fun q hq' => mem_inits hq') hq ha
     · cases h
 
 theorem ocfn_touched (fs fs' : FS) (p : P) (Q : P → Prop) (hq : Q p) (h : ocfn fs p = .ok fs') : Touched fs fs' Q := by
   unfold ocfn at h
   split at h
-  · cases h; exact Touched.refl _ _
-  · cases h
+  · split at h
+    · cases h; exact Touched.refl _ _
+    · cases h
   · split at h
     · cases h
     · split at h
@@ -455,5 +457,85 @@ theorem clearPath_removes_path (c : Cfg) (fs fs' : FS) (p : P) (h : clearPath c 
     cases hk : kind? fs p with
     | none => rfl
     | some k => simp [fexists, hk] at hne
+
+/-! ### the alternative head -/
+
+theorem altTailSegs_normal (clean : Bool) : normalPath (altTailSegs clean) := by
+  intro s hs
+  cases clean <;> simp [altTailSegs, Gen.filerAltTail, Gen.filerAltCleanTail] at hs <;> (try rcases hs with rfl | rfl) <;> (try subst hs) <;>
+    simp [normalSeg, isSkip, isUp]
+
+theorem altTail_append_ne_nil (clean : Bool) (t : List Seg) : altTailSegs clean ++ t ≠ [] := by
+  cases clean <;> simp [altTailSegs, Gen.filerAltTail, Gen.filerAltCleanTail]
+
+theorem fullPathT_eq (head : P) (tail : List Seg) (base name : List Nat) (q : List Seg) (ht : normalPath tail)
+    (hr : relWalk [] (splitSlash base ++ splitSlash name) = some q) :
+    fullPathT head tail base name = head ++ tail ++ q.reverse := by
+  unfold fullPathT
+  rw [List.append_assoc, walk_append, walk_normal _ _ ht]
+  have := walk_of_relWalk [] q (tail.reverse ++ head.reverse) _ hr
+  simp only [List.nil_append] at this
+  rw [this]
+  simp
+
+theorem needsAlt_spec (c : Cfg) (clean : Bool) (fs fs2 : FS) (h : needsAlt c clean fs = some fs2) :
+    c.temp = false ∧ ∃ q, relWalk [] (splitSlash c.base ++ splitSlash (withExt c.name c.fext c.filed c.ext)) = some q ∧
+      cleanOld c clean fs (c.head ++ tailSegs clean ++ q.reverse) = .ok fs2 := by
+  unfold needsAlt at h
+  split at h
+  · cases h
+  · rename_i h0
+    simp only [Bool.or_eq_true, not_or, Bool.not_eq_true] at h0
+    simp only at h
+    split at h
+    · cases h
+    · split at h
+      · cases h
+      · rename_i hq
+        cases hq' : relWalk [] (splitSlash c.base ++ splitSlash (withExt c.name c.fext c.filed c.ext)) with
+        | none => simp [hq'] at hq
+        | some q =>
+          refine ⟨h0.1.1, q, rfl, ?_⟩
+          rw [fullPath_eq _ clean c.base _ q hq'] at h
+          split at h
+          · cases h
+          · rename_i fs2' hc
+            split at h
+            · split at h
+              · cases h; exact hc
+              · cases h
+            · cases h
+
+/-- the fallback touches only the inside of the alternative head, and its path lies below `altHead/.hio[/clean]` -/
+theorem altCreate_touched (c : Cfg) (clean : Bool) (fs : FS) (n : Nat) (q : List Seg)
+    (hq : relWalk [] (splitSlash c.base ++ splitSlash (withExt c.name c.fext c.filed c.ext)) = some q)
+    (ha : ∀ r, r <+: c.altHead → r ≠ c.altHead → r ≠ [] → kind? fs r ≠ none) :
+    Touched fs (altCreate c clean fs n).1 (fun x => c.altHead <+: x) ∧
+    ∀ p, (altCreate c clean fs n).2.2 = .ok p → c.altHead ++ altTailSegs clean <+: p := by
+  have hpath := fullPathT_eq c.altHead (altTailSegs clean) c.base _ q (altTailSegs_normal clean) hq
+  have hpre : c.altHead <+: c.altHead ++ altTailSegs clean ++ q.reverse := by
+    rw [List.append_assoc]; exact List.prefix_append _ _
+  have hB : c.altHead <+: dirname (c.altHead ++ altTailSegs clean ++ q.reverse) := by
+    unfold dirname
+    rw [List.append_assoc, List.dropLast_append_of_ne_nil (altTail_append_ne_nil clean _)]
+    exact List.prefix_append _ _
+  have hanc : AncestorsExist fs (c.altHead ++ altTailSegs clean ++ q.reverse) c.altHead := by
+    intro r hr hnb hne
+    rcases List.prefix_or_prefix_of_prefix hr hpre with h | h
+    · exact ha r h (fun e => hnb (e ▸ List.prefix_refl _)) hne
+    · exact absurd h hnb
+  unfold altCreate
+  simp only [hpath]
+  split
+  · split
+    · exact ⟨Touched.refl _ _, fun p h => by cases h⟩
+    · rename_i fs3 h3
+      exact ⟨create_touched c fs fs3 _ c.altHead hB hanc h3, fun p h => by cases h; exact ⟨q.reverse, rfl⟩⟩
+  · split
+    · split
+      · exact ⟨Touched.refl _ _, fun p h => by cases h⟩
+      · rename_i fs3 h3
+        exact ⟨ocfn_touched _ _ _ _ hpre h3, fun p h => by cases h; exact ⟨q.reverse, rfl⟩⟩
+    · exact ⟨Touched.refl _ _, fun p h => by cases h; exact ⟨q.reverse, rfl⟩⟩
 
 end Hio.Path
